@@ -196,6 +196,11 @@ class RealGen:
             ra += " " + k + "=" + self.ser_attr_value(v)
         budget = [r.randint(0, 40)]
         body = []
+        if r.random() < 0.12 and "clip-path" not in seen:
+            # a self-contained clipped image: the root refers to a clipPath defined inside itself
+            ra += ' clip-path="url(#rootclip)"'
+            body.append('<defs><clipPath id="rootclip"><circle cx="5" cy="5" r="5"/></clipPath></defs>')
+            self.feats.add("root.clip-path")
         for _ in range(r.randint(0, 6)):
             k = r.random()
             if k < 0.7:
@@ -362,7 +367,12 @@ def run_shard(ctx):
             g2 = RealGen(rng)
             budget = [rng.randint(0, 10)]
             inner = "".join(g2.element(2, budget) if rng.random() < 0.7 else g2.ser_text(rng.choice(TEXTS)) for _ in range(rng.randint(1, 4)))
-            sub = '<svg xmlns="%s" data-verif-marker="1"%s>%s</svg>' % (SVGNS, rng.choice(["", ' width="5" height="5"', ' x="1" wh="3"', ' id="n"']), inner)
+            sattr = rng.choice(["", ' width="5" height="5"', ' x="1" wh="3"', ' id="n"', ' clip-path="url(#nclip)"', ' class="b  a b" width="{{1 + 2}}"',
+                                ' filter="url(#nowhere)" clip-path="url(#nclip)" viewBox="0 0 10 10"', ' style="a: b" text="t" xy="#q|h"'])
+            if "nclip" in sattr:
+                # the subtree is self-contained: what its root refers to is defined inside it (and nowhere in the host)
+                inner = '<defs><clipPath id="nclip"><circle cx="5" cy="5" r="5"/></clipPath></defs>' + inner
+            sub = '<svg xmlns="%s" data-verif-marker="1"%s>%s</svg>' % (SVGNS, sattr, inner)
             variant = rng.choice(["top", "group", "forward", "specs", "fragment-group", "fragment"])
             doc2 = nested_doc(rng, sub, variant)
             check_case(ctx, dict(input=doc2.encode("utf-8"), subtree=sub.encode("utf-8"), cfg=docgen.gen_cfg(rng) if rng.random() < 0.5 else None,
